@@ -44,7 +44,10 @@ def prepare(scratch, units):
                     # into a function whose parameters are the free names of that expression
                     body = text[it.body_open + 1:it.body_close]
                     mbody = rs.mask(body)
-                    mm = re.search(r"\blet\s+%s\s*(?::[^=;]+)?=\s*" % re.escape(ex["let"]), mbody)
+                    mms = list(re.finditer(r"\blet\s+%s\s*(?::[^=;]+)?=\s*" % re.escape(ex["let"]), mbody))
+                    mm = mms[ex.get("nth", 0)] if len(mms) > ex.get("nth", 0) else None
+                    if "count" in ex and len(mms) != ex["count"]:
+                        raise Undecided("lost anchor: expected %d `let %s` in %s :: %s, found %d" % (ex["count"], ex["let"], ex["file"], ex["item"], len(mms)))
                     if not mm:
                         raise Undecided("lost anchor: `let %s` in %s :: %s" % (ex["let"], ex["file"], ex["item"]))
                     j = mm.end()
@@ -159,6 +162,8 @@ def run_units(unit_names, tier, tag, only_props=None):
                 ob.harness = o["harness"]
                 ob.unit = u
                 ob.timeout = o.get("timeout", 600 if tier == "quick" else 3600)
+                ob.nonterm_violation = bool(o.get("nontermination_is_violation"))
+                ob.witness = o.get("witness")
                 obls.append(ob)
                 groups.setdefault(u["cfg"]["package_dir"], []).append(ob)
         for pkg, obs in groups.items():
@@ -232,6 +237,11 @@ def _collect(res, obs, out, info):
         real = [c for c in bad if c.get("status") in ("Failure", "FAILURE")
                 and "unwinding assertion" not in (c.get("description") or "")
                 and c.get("category") not in ("unsupported_construct", "unwind")]
+        unwind_fail = [c for c in bad if c.get("status") in ("Failure", "FAILURE") and "unwinding assertion" in (c.get("description") or "")]
+        if not real and unwind_fail and getattr(ob, "nonterm_violation", False):
+            # the harness bound is sufficient for every terminating implementation on this input size
+            real = unwind_fail
+            ob.detail += "\n(unwinding/recursion bound exceeded on a fixed 2-element input: the function does not terminate)"
         if real:
             ob.status = FAILED
             ob.failed_checks = descr
